@@ -53,8 +53,50 @@ def paths(extra=()):
     return out
 
 
+def read_file_dispatch():
+    """read_file must look up the extractor for the caller's own path string."""
+    import os, tempfile
+    from pathlib import Path
+    import sharepoint2text
+    seen = []
+    orig = sharepoint2text.get_extractor
+    def spy(p):
+        seen.append(p)
+        return orig(p)
+    with tempfile.TemporaryDirectory() as d:
+        tgt = os.path.join(d, "page.html")
+        open(tgt, "w").write("<html><body><p>hi</p></body></html>")
+        blob = os.path.join(d, "3f2a9c71")
+        open(blob, "w").write("plain words")
+        cases = [tgt]
+        for name, to in (("latest.txt", tgt), ("report.html", blob)):
+            link = os.path.join(d, name)
+            try:
+                os.symlink(to, link)
+                cases.append(link)
+            except OSError:
+                pass
+        sharepoint2text.get_extractor = spy
+        try:
+            for p in cases:
+                del seen[:]
+                try:
+                    res = list(sharepoint2text.read_file(p))
+                    got = type(res[0]).__name__ if res else "no result"
+                except Exception as e:  # noqa
+                    got = type(e).__name__
+                if seen != [str(Path(p))]:
+                    return {"path": p, "mimetypes": "default"}, f"get_extractor({str(Path(p))!r})", f"get_extractor called with {seen} -> {got}"
+        finally:
+            sharepoint2text.get_extractor = orig
+    return None
+
+
 def find(req):
     r = router()
+    rf = read_file_dispatch()
+    if rf is not None:
+        return {"reproduced": True, "target": "sharepoint2text/__init__.py::read_file", "inputs": rf[0], "expected": rf[1], "observed": rf[2]}
     w = req.get("witness") or {}
     extra = [w["path"]] if isinstance(w.get("path"), str) else []
     if isinstance(w.get("path_lower"), str):
